@@ -76,9 +76,6 @@ def check(doc, foreign=None, io_wires=()):
             if nm in seen:
                 E("unique-names", f"{mn}: name {nm} declared twice")
             seen.add(nm)
-        # module must not be empty (black box for most toolchains)
-        if not m.cells and not m.processes and not m.connects and "top" not in m.attrs:
-            E("empty-module", f"{mn}: module without cells, processes or connections is emitted")
         # ports: ids unique and dense from 0
         ports = [w for w in m.wires.values() if w.port_kind]
         ids = sorted(w.port_id for w in ports)
